@@ -149,35 +149,31 @@ func (env *SpecEnv) resolveType(name string) *SType {
 	}
 	pkg := env.pkg
 	tn := name
+	var cands []*types.Package
 	if i := strings.Index(name, "."); i >= 0 {
 		pn := name[:i]
 		tn = name[i+1:]
-		found := false
 		if pkg != nil {
 			for _, imp := range pkg.Imports() {
 				if imp.Name() == pn {
-					pkg = imp
-					found = true
-					break
+					cands = append(cands, imp)
 				}
 			}
 		}
-		if !found {
-			// search all loaded packages by name
-			for _, p := range env.ex.P.allTypesPkgs() {
-				if p.Name() == pn {
-					pkg = p
-					found = true
-					break
-				}
+		// all loaded packages with that name (import aliases are not visible here)
+		for _, p := range env.ex.P.allTypesPkgs() {
+			if p.Name() == pn {
+				cands = append(cands, p)
 			}
 		}
-		if !found {
+		if len(cands) == 0 {
 			env.fail("unknown package in type %s", name)
 		}
+	} else if pkg != nil {
+		cands = []*types.Package{pkg}
 	}
-	if pkg != nil {
-		if o := pkg.Scope().Lookup(tn); o != nil {
+	for _, p := range cands {
+		if o := p.Scope().Lookup(tn); o != nil {
 			if t, ok := o.(*types.TypeName); ok {
 				return &SType{S: reg.SortOf(t.Type()), GT: t.Type()}
 			}
@@ -785,7 +781,7 @@ func (env *SpecEnv) call(e *SExpr) Val {
 	case "emptymap":
 		// emptymap("K","V") constant-false / default array
 		k := env.resolveType(e.Args[0].Name)
-		return Val{T: fmt.Sprintf("((as const %s) false)", ArrS(k.S, SBool)), S: ArrS(k.S, SBool)}
+		return Val{T: ex.reg.ConstArray(k.S, SBool, "false"), S: ArrS(k.S, SBool)}
 	case "wrap64":
 		return Val{T: app("wrap_s64", arg(0).T), S: SInt}
 	case "wrapu64":
